@@ -30,7 +30,9 @@ func daysBeforeYear(y *term.Term) *term.Term {
 func isLeap(y *term.Term) *term.Term {
 	yy := term.Add(y, c64(400*yearShift))
 	z := c64(0)
-	return term.Or(term.And(term.Eq(term.URem(yy, c64(4)), z), term.Ne(term.URem(yy, c64(100)), z)), term.Eq(term.URem(yy, c64(400)), z))
+	// the shape a merged `(u%4 == 0 && u%100 != 0) || u%400 == 0` takes, so that harness oracles written that way share the term
+	div400 := term.Eq(term.URem(yy, c64(400)), z)
+	return term.Ite(term.Eq(term.URem(yy, c64(4)), z), term.Or(term.Ne(term.URem(yy, c64(100)), z), div400), div400)
 }
 
 var cumDays = [13]int64{0, 0, 31, 59, 90, 120, 151, 181, 212, 243, 273, 304, 334}
@@ -132,6 +134,20 @@ func (ex *Exec) localDays(st *State, t *StructV) (*term.Term, *term.Term) {
 	return term.Add(days, q), r
 }
 
+// boundYear adds, for this state only, constant bounds on the witness year that follow from the linear
+// consequences above and the range the path facts give for the ordinal: they let the
+// int32 packing of the year simplify away.
+func (ex *Exec) boundYear(st *State, y, ord *term.Term) {
+	r, ok := st.facts().srangeOf(ord)
+	if !ok || r.hi >= 1<<40 || r.lo <= -(1<<40) {
+		return
+	}
+	// Y-1 lies between (400*ord-146288)/146097 and (400*ord+591)/146097 (real division); the slack covers truncation
+	ylo := (400*r.lo-146288)/146097 - 2
+	yhi := (400*r.hi+591)/146097 + 3
+	st.G = term.And(st.G, term.Sge(y, c64(ylo)), term.Sle(y, c64(yhi)))
+}
+
 type ymdWitness struct {
 	y, m, d *term.Term
 	cons    *term.Term
@@ -146,6 +162,7 @@ func (ex *Exec) freshYMD(st *State, ord *term.Term) (y, m, d *term.Term) {
 	if memo, ok := ex.ymdMemo[ord.ID]; ok {
 		// the civil date is a function of the ordinal: the same ordinal term gets the same witnesses
 		st.G = term.And(st.G, memo.cons)
+		ex.boundYear(st, memo.y, ord)
 		return memo.y, memo.m, memo.d
 	}
 	y, m, d = ex.Fresh("Y", term.BV(64)), ex.Fresh("M", term.BV(64)), ex.Fresh("D", term.BV(64))
@@ -162,6 +179,7 @@ func (ex *Exec) freshYMD(st *State, ord *term.Term) (y, m, d *term.Term) {
 	}
 	ex.ymdMemo[ord.ID] = ymdWitness{y, m, d, cons}
 	st.G = term.And(st.G, cons)
+	ex.boundYear(st, y, ord)
 	return
 }
 
@@ -257,6 +275,10 @@ func init() {
 	Stubs["(time.Time).Year"] = func(ex *Exec, c *CallCtx) []*callResult { y, _, _ := civil(ex, c); return c.ret(y) }
 	Stubs["(time.Time).Month"] = func(ex *Exec, c *CallCtx) []*callResult { _, m, _ := civil(ex, c); return c.ret(m) }
 	Stubs["(time.Time).Day"] = func(ex *Exec, c *CallCtx) []*callResult { _, _, d := civil(ex, c); return c.ret(d) }
+	Stubs["(time.Time).YearDay"] = func(ex *Exec, c *CallCtx) []*callResult {
+		y, m, d := civil(ex, c)
+		return c.ret(term.Add(monthOffset(y, m), d))
+	}
 	Stubs["(time.Time).Zone"] = func(ex *Exec, c *CallCtx) []*callResult {
 		t := c.Args[0].(*StructV)
 		return c.ret(TupleV{Str(""), ex.locOffset(c.St, t.F[2])})
@@ -305,7 +327,13 @@ func init() {
 	Stubs["(time.Time).AddDate"] = func(ex *Exec, c *CallCtx) []*callResult {
 		t := c.Args[0].(*StructV)
 		ld, _ := ex.localDays(c.St, t)
-		y, m, d := ex.freshYMD(c.St, ld)
+		var y, m, d *term.Term
+		if pok, py, pm, pd := provenance(t); !pok.IsFalse() && !ex.feasibleSt(c.St, term.Not(pok), true) {
+			// the time certainly shows the civil date it was built from (one solver query when the path facts alone do not show it)
+			y, m, d = py, pm, pd
+		} else {
+			y, m, d = civil(ex, c)
+		}
 		a := func(i int) *term.Term { return c.Args[i].(*term.Term) }
 		ord, pre := ordinalNorm(term.Add(y, a(1)), term.Add(m, a(2)), term.Add(d, a(3)))
 		ex.precond(c, c.St, "time.AddDate-component-range", pre)
@@ -326,6 +354,10 @@ func init() {
 		t, u := c.Args[0].(*StructV), c.Args[1].(*StructV)
 		dd := term.Sub(t.F[1].(*term.Term), u.F[1].(*term.Term))
 		dn := term.Sub(t.F[0].(*term.Term), u.F[0].(*term.Term))
+		if sr, ok := c.St.facts().srangeOf(dd); ok && sr.lo >= -106751 && sr.hi <= 106751 && dn.IsConst() && dn.Val == 0 {
+			// whole days within time.Duration's range: no saturation, the plain product
+			return c.ret(term.Mul(dd, c64(nsPerDay)))
+		}
 		ex.precond(c, c.St, "time.Sub-day-difference-below-2^62", term.And(term.Sle(dd, c64(1<<62)), term.Sge(dd, c64(-(1<<62)))))
 		tot := term.Add(term.Mul(term.Sext(dd, 64), term.Sext(c64(nsPerDay), 64)), term.Sext(dn, 64))
 		maxV := term.Sext(c64(1<<63-1), 64)
@@ -338,6 +370,22 @@ func init() {
 		const hour = 3600 * 1000000000
 		h := term.SDiv(d, c64(hour))
 		ns := term.SRem(d, c64(hour))
+		if d.Op == term.OMul {
+			// (x*k) with hour | k and no overflow: exactly x*(k/hour) hours and no remainder
+			for i := 0; i < 2; i++ {
+				k, x := d.Args[i], d.Args[1-i]
+				if k.IsConst() && k.SVal() > 0 && k.SVal()%hour == 0 {
+					if xr, ok := c.St.facts().srangeOf(x); ok {
+						_, o1 := mulOv(xr.lo, k.SVal())
+						_, o2 := mulOv(xr.hi, k.SVal())
+						if o1 && o2 {
+							h, ns = term.Mul(x, c64(k.SVal()/hour)), c64(0)
+							break
+						}
+					}
+				}
+			}
+		}
 		return c.ret(term.FpArith(term.OFpAdd, term.FpFromBV(h, 64, true), term.FpArith(term.OFpDiv, term.FpFromBV(ns, 64, true), term.FPConst64(60*60*1e9))))
 	}
 	Stubs["time.Now"] = func(ex *Exec, c *CallCtx) []*callResult {
